@@ -25,6 +25,9 @@ def tu_for(tracking):
     s += 'namespace vf { auto root_pos(const %s& in) { return in.position(); } }\n' % it
     s += 'namespace vf { auto root_eol(const %s& in, const position& p) { return in.end_of_line( p ); } }\n' % it
     s += 'namespace vf { auto root_lineat(const %s& in, const position& p) { return in.line_at( p ); } }\n' % it
+    if tracking == 'lazy':
+        for key, pol in (('eolcc', 'cr_crlf'), ('eollf', 'lf'), ('eolcr', 'cr'), ('eolcrlf', 'crlf')):
+            s += 'namespace vf { auto root_%s(const %s& in, const position& p) { return in.end_of_line( p ); } }\n' % (key, INPUT_TYPES[('lazy', pol)])
     if tracking == 'eager':
         s += 'namespace vf { auto root_bolcc(const InE_cr_crlf& in, const position& p) { return in.begin_of_line( p ); } }\n'
         s += 'namespace vf { auto root_eolcc(const InE_cr_crlf& in, const position& p) { return in.end_of_line( p ); } }\n'
@@ -168,14 +171,14 @@ def jobs(tier):
                        expect_fail_canary=('canary_exit',),
                        desc='memory_input<%s>::line_at(position) (lf_crlf): real begin_of_line and end_of_line below it' % tr))
         # end_of_line() under the policies cr_crlf and lf (same real body, other Eol::match inside eolf)
-        if tr == 'eager':
+        if tr == 'eager' or tier == 'thorough':
             for key, pol, edef in (('eolcc', 'cr_crlf', EOLSTART_CC), ('eollf', 'lf', EOLSTART_LF), ('eolcr', 'cr', EOLSTART_CR), ('eolcrlf', 'crlf', EOLSTART_CRLF)):
-                out.append(Job('eol_%s_e' % pol, grp, key, con, ('C19', 'C03'), prelude=prelude(tr) + PRE + edef,
-                               harness=H % {'it': 'vf_' + INPUT_TYPES[('eager', pol)], 'setup': setup + ' __CPROVER_assume(g_byte0 == 0 && g_col0 == 1); vf_exc.pending = 0;', 'call': '$ENTRY(&in, &p)'},
+                out.append(Job('eol_%s_%s' % (pol, tr[0]), grp, key, con, ('C19', 'C03'), prelude=prelude(tr) + PRE + edef,
+                               harness=H % {'it': 'vf_' + INPUT_TYPES[(tr, pol)], 'setup': setup + ' __CPROVER_assume(g_byte0 == 0 && g_col0 == 1); vf_exc.pending = 0;', 'call': '$ENTRY(&in, &p)'},
                                loops={(r'^bool tao::pegtl::internal::until<tao::pegtl::internal::at<tao::pegtl::internal::eolf> ?>::match<', 1, 'opt'): inv},
                                stubs=[(r'std::find<char const\*, char>\(', STD_FIND, 'opt')],
                                expect_fail_canary=('canary_exit',),
-                               desc='memory_input<eager, eol::%s>::end_of_line(position), real until< at< eolf > > on the lazy sub-input under a loop contract' % pol))
+                               desc='memory_input<%s, eol::%s>::end_of_line(position), real until< at< eolf > > on the lazy sub-input under a loop contract' % (tr, pol)))
         # position(): eager = the iterator fields; lazy = bump from the beginning, starting from the initial counters
         if tr == 'eager':
             con = Contract(R('__CPROVER_r_ok(self, sizeof(*self)) && g_n <= MAXN && PTRS_OK_BASE(self) && CNT_OK(self) && __CPROVER_w_ok(_sret, sizeof(*_sret))', 'pre'),
